@@ -6,7 +6,7 @@
     [vm_compute] run the model on the very case the implementation ran. *)
 From Coq Require Export String List ZArith Bool Ascii.
 From Coq Require Export Floats.SpecFloat.
-From Zog Require Export Model.Val Model.Engine Model.Coerce Model.Preds Model.Builder.
+From Zog Require Export Model.Val Model.Engine Model.Coerce Model.Preds Model.Builder Model.Options.
 From Zog Require Import Model.Http Model.Trim.
 Import ListNotations.
 Open Scope string_scope.
